@@ -314,6 +314,10 @@ def f_linear(x, w, b=None):
 def f_pad(x, pad, mode='constant', value=0):
     x = _t(x)
     pad = [concretize_int(p) for p in pad]
+    if isinstance(value, Tensor):           # torch converts a one-element tensor given as the fill value with float()
+        if len(value.els) != 1:
+            raise TypeError('pad(): argument value must be a number')
+        value = value.els[0]
     t = x
     d = len(x.shape) - 1
     for i in range(0, len(pad), 2):
@@ -994,8 +998,24 @@ class FxGraph:
             self._nodes.insert(i if before else i + 1, node)
         return node
 
+    def _create_name(self, candidate):
+        """torch.fx.graph._Namespace.create_name against the names present in the graph (illegal characters -> '_', numeric suffix until unique)"""
+        import re, keyword, builtins
+        candidate = re.sub('[^0-9a-zA-Z_]+', '_', candidate) or '_unnamed'
+        if candidate[0].isdigit():
+            candidate = '_' + candidate
+        m = re.match(r'^([a-zA-Z_][0-9a-zA-Z_]*?)(?:_(\d+))?$', candidate)
+        base, num = (candidate, None) if m is None else (m.group(1), int(m.group(2)) if m.group(2) else None)
+        candidate = base if num is None else f'{base}_{num}'
+        used = {n.name for n in self._nodes}
+        num = num or 0
+        while candidate in used or candidate in keyword.kwlist or candidate in builtins.__dict__ or candidate in ('inf', 'nan', 'NoneType', 'torch', 'device'):
+            num += 1
+            candidate = f'{base}_{num}'
+        return candidate
+
     def call_module(self, target, args=(), kwargs=None):
-        return self._add(FxNode(self, 'call_module', target, args))
+        return self._add(FxNode(self, 'call_module', target, args, name=self._create_name(str(target))))
 
     def placeholder(self, name):
         return self._add(FxNode(self, 'placeholder', name, ()))
@@ -1371,6 +1391,17 @@ def install(interp):
     # fx: only names needed for isinstance / annotations + the single-node bookkeeping classes
     fx = I.NS('torch.fx', Node=FxNode, GraphModule=nn._fx_stubs['GraphModule'], Graph=FxGraph, Tracer=nn._fx_stubs['Tracer'],
               passes=I.NS('passes', shape_prop=I.NS('shape_prop', ShapeProp=nn._fx_stubs['ShapeProp'])))
+    def fx_replace_node_module(it, node, modules, new_module):
+        """torch.fx.experimental.optimization.replace_node_module: modules[node.target] = new_module; setattr(modules[parent], name, new_module)"""
+        if not isinstance(node.target, str):
+            raise I.RaiseEx(AssertionError('replace_node_module: node.target is not a string'))
+        parent, _, name = node.target.rpartition('.')
+        modules[node.target] = new_module
+        par = modules[parent]
+        par.attrs.pop(name, None)
+        par.attrs['_modules'][name] = new_module
+        return None
+    fx.experimental = I.NS('experimental', optimization=I.NS('optimization', replace_node_module=I.InterpBuiltin(fx_replace_node_module)))
     torch.fx = fx
     def t_vmap(it, fn, in_dims=0, out_dims=0, **kw):
         """torch.vmap over dimension 0 of every (tensor) argument; results stacked along dimension 0"""
